@@ -177,7 +177,7 @@ void harness(void)
 		/* three fixed buffers covering words, punctuation, blanks, tabs, 2-byte and double-width characters, an empty line */
 		static const char *bufs[4][NLN] = {
 			{"ab.c  d", "", "\ta (a) \xc3\xa9\xe4\xb8\xad" "b"},
-			{"\xe4\xb8\xad\t\xc3\xa9. a", " x.", "a"},
+			{"\xe4\xb8\xad\t\xc3\xa8\xc3\xa9. a\xc3\xa8", " x.", "a"},	/* è next to é: same lead byte, another character */
 			{"a", "(a.b) [\xc3\xa9] a", ""},
 			{"\xd8\xa7\xd8\xa8\xd8\xac\xd8\xaf", "ab", "\xd8\xa8"},	/* right-to-left lines (only with BUFSEL 3: h and l follow the display) */
 		};
